@@ -387,7 +387,7 @@ LIN_MSG = {1: "graph obtained by this order of replacements is not isomorphic (t
            11: "the model's run of this linearisation fails", 12: "model's own run is not the derived graph (contradicts C15_confluence)"}
 DER_MSG = {1: "derive(): graph is not isomorphic to the derived graph (oracle same_upto_naming rejects)",
            2: "derive(): assignment is not total on the nodes of the derived graph",
-           12: "derive(): assignment (read through the names) is not the denotational derived assignment",
+           12: "derive(): a value of the assignment is not the value of the denotational derived assignment at that node's name (C15_derive_assignment)",
            3: "derive(): product of factor weights differs from the product of the rule-instance weights",
            4: "generated derivation tree is not well-formed (harness bug)", 10: "derive() differs from derive_model",
            11: "derive_model raises on a well-formed derivation"}
@@ -496,10 +496,10 @@ def run(tier, seed):
         key = kind + ":" + {0: "returned", 1: "ValueError", 2: "KeyError", 3: "other"}[status]
         mal_obs[key] = mal_obs.get(key, 0) + 1
 
-    rcodes, k1 = run_model(REPL, [c for c, _ in repl_cases], seed=seed, tag="c15r", coq_sample=15)
-    lcodes, k2 = run_model(LIN, lin_cases, seed=seed, tag="c15l", coq_sample=8)
-    dcodes, k3 = run_model(DER, der_cases, seed=seed, tag="c15d", coq_sample=8)
-    scodes, k4 = run_model(START, start_cases, seed=seed, tag="c15s", coq_sample=5)
+    rcodes, k1 = run_model(REPL, [c for c, _ in repl_cases], seed=seed, tag="c15r", coq_sample=10)
+    lcodes, k2 = run_model(LIN, lin_cases, seed=seed, tag="c15l", coq_sample=6)
+    dcodes, k3 = run_model(DER, der_cases, seed=seed, tag="c15d", coq_sample=6)
+    scodes, k4 = run_model(START, start_cases, seed=seed, tag="c15s", coq_sample=3)
     exact = [0, 0]
     for c, m, code in zip(start_cases, start_meta, scodes):
         if code == 0: continue
@@ -521,8 +521,8 @@ def run(tier, seed):
         exact[1] += 1
         if code == 0: exact[0] += 1; continue
         if code == 20: notes += 1; continue
-        violations.append(Violation(DER_MSG.get(code, "code %d" % code), case=m, observed=c[2], oracle={1: "same_upto_naming", 2: "total assignment", 3: "weight product"}.get(code),
-                                    failing_input_found=code in (1, 2, 3), corr="C15_derive / corr:derive", call="FGGDerivation.derive()"))
+        violations.append(Violation(DER_MSG.get(code, "code %d" % code), case=m, observed=c[2], oracle={1: "same_upto_naming", 2: "total assignment", 3: "weight product", 12: "derived assignment"}.get(code),
+                                    failing_input_found=code in (1, 2, 3, 12), corr="C15_derive / C15_derive_assignment / corr:derive", call="FGGDerivation.derive()"))
     if notes: print("NOTE C15: %d result(s) equal to the model only up to dict order" % notes)
     cov = dict(evaluations=len(repl_cases) + len(lin_cases) + len(der_cases) + len(start_cases),
                distinct_nontrivial=len({s for s in shapes if len(s[1][1]) >= 1}),
@@ -539,7 +539,10 @@ def run(tier, seed):
                open_items=OPEN_ITEMS)
     return cov, violations
 
-OPEN_ITEMS = []
+OPEN_ITEMS = [
+    "completeness of the oracles (replace_spec -> replace_ok = true, iso_via -> same_upto_naming = true) is not proved; only soundness is",
+    "the node-label table of Graph and replace_edge(g, e, g) with host = replacement are outside the model",
+]
 
 def replay(path):
     import json
